@@ -1,12 +1,532 @@
 package sym
 
-import "math/big"
+import (
+	"fmt"
+	"go/types"
+	"math/big"
+
+	"golang.org/x/tools/go/ssa"
+)
 
 type bigIntT = big.Int
 
 var bigOne = big.NewInt(1)
 var bigTen = big.NewInt(10)
 
-func registerBigModels(ex *Exec) {}
+// math/big.Int model. Two interchangeable encodings, chosen per harness:
+//
+//	bv  : non-negative values in a fixed-width bit-vector (width W); every operation carries a
+//	      statically tracked bound on the bit length (MaxBits) and the run stops (UNSUPPORTED)
+//	      if a result could exceed W or become negative -- the finite width is checked, not assumed
+//	int : SMT integers (unbounded, signed)
+type BigV struct {
+	T       *Term
+	MaxBits int // bv mode: upper bound on the bit length of the value
+}
 
-func (ex *Exec) bigZero() Value { return Poison{"big.Int model not built"} }
+func (b *BigV) Copy() Value { n := *b; return &n }
+func (b *BigV) Identical(o Value) bool {
+	x, ok := o.(*BigV)
+	return ok && x.T == b.T
+}
+func (b *BigV) Merge(c *Ctx, g *Term, other Value) (Value, bool) {
+	x, ok := other.(*BigV)
+	if !ok || x.T.S != b.T.S {
+		return nil, false
+	}
+	mb := b.MaxBits
+	if x.MaxBits > mb {
+		mb = x.MaxBits
+	}
+	return &BigV{T: c.Ite(g, b.T, x.T), MaxBits: mb}, true
+}
+
+func (ex *Exec) bigIsInt() bool { return ex.BigMode == "int" }
+
+func (ex *Exec) bigConst(v *big.Int) *BigV {
+	if ex.bigIsInt() {
+		return &BigV{T: ex.Ctx.Int(v)}
+	}
+	w := ex.bigW()
+	if v.Sign() < 0 || v.BitLen() > w {
+		return &BigV{T: ex.Ctx.BVBig(w, v), MaxBits: 1 << 30}
+	}
+	return &BigV{T: ex.Ctx.BVBig(w, v), MaxBits: v.BitLen()}
+}
+
+func (ex *Exec) bigW() int {
+	if ex.BigWidth > 0 {
+		return ex.BigWidth
+	}
+	return 600
+}
+
+func (ex *Exec) bigZero() Value { return ex.bigConst(new(big.Int)) }
+
+func (ex *Exec) bigGet(s *State, v Value) (*BigV, error) {
+	p, ok := v.(Ptr)
+	if !ok || p.Obj == 0 {
+		return nil, &goPanic{"nil *big.Int"}
+	}
+	lv, err := ex.load(s, p)
+	if err != nil {
+		return nil, err
+	}
+	b, ok := lv.(*BigV)
+	if !ok {
+		return nil, unsupported("big.Int object holds %T", lv)
+	}
+	if !ex.bigIsInt() && b.MaxBits > ex.bigW() {
+		return nil, unsupported("big.Int (bit-vector model): value may exceed %d bits or be negative", ex.bigW())
+	}
+	return b, nil
+}
+
+func (ex *Exec) bigSet(s *State, recv Value, b *BigV) (Value, *Fork, error) {
+	if !ex.bigIsInt() && b.MaxBits > ex.bigW() {
+		return nil, nil, unsupported("big.Int (bit-vector model): result may exceed %d bits or be negative", ex.bigW())
+	}
+	p := recv.(Ptr)
+	if p.Obj == 0 {
+		return nil, nil, &goPanic{"nil *big.Int receiver"}
+	}
+	if err := ex.store(s, p, b); err != nil {
+		return nil, nil, err
+	}
+	return recv, nil, nil
+}
+
+func (ex *Exec) newBig(s *State, b *BigV) Value {
+	t := ex.lookupType("math/big", "Int")
+	id := ex.newObject(s, b, t)
+	return Ptr{Obj: id}
+}
+
+func constShift(v Value) (int, error) {
+	t := v.(*Term)
+	if !t.IsConst() {
+		return 0, unsupported("big.Int shift by a symbolic amount")
+	}
+	return int(t.U), nil
+}
+
+func pow2(k int) *big.Int { return new(big.Int).Lsh(bigOne, uint(k)) }
+
+func registerBigModels(ex *Exec) {
+	m := ex.Models
+	type binFn func(ex *Exec, x, y *BigV) (*BigV, error)
+	bin := func(f binFn) ModelFn {
+		return func(ex *Exec, s *State, cc *ssa.CallCommon, a []Value) (Value, *Fork, error) {
+			x, err := ex.bigGet(s, a[1])
+			if err != nil {
+				return nil, nil, err
+			}
+			y, err := ex.bigGet(s, a[2])
+			if err != nil {
+				return nil, nil, err
+			}
+			r, err := f(ex, x, y)
+			if err != nil {
+				return nil, nil, err
+			}
+			return ex.bigSet(s, a[0], r)
+		}
+	}
+	m["math/big.NewInt"] = func(ex *Exec, s *State, cc *ssa.CallCommon, a []Value) (Value, *Fork, error) {
+		t := a[0].(*Term)
+		if t.IsConst() {
+			return ex.newBig(s, ex.bigConst(big.NewInt(t.SInt64()))), nil, nil
+		}
+		if ex.bigIsInt() {
+			// signed 64-bit to Int
+			c := ex.Ctx
+			neg := c.Cmp(OSlt, t, c.BV(64, 0))
+			v := c.Ite(neg, c.IntOp(OISub, c.BV2Int(t), c.Int(pow2(64))), c.BV2Int(t))
+			return ex.newBig(s, &BigV{T: v}), nil, nil
+		}
+		r := ex.Ctx.rangeOf(t)
+		if r.lo < 0 {
+			// must be provably non-negative
+			if ex.checkSat(s, ex.Ctx.Cmp(OSlt, t, ex.Ctx.BV(64, 0))) != Unsat {
+				return nil, nil, unsupported("big.NewInt of possibly negative value (bit-vector model)")
+			}
+		}
+		return ex.newBig(s, &BigV{T: ex.Ctx.ZExt(t, ex.bigW()), MaxBits: 63}), nil, nil
+	}
+	m["(*math/big.Int).SetUint64"] = func(ex *Exec, s *State, cc *ssa.CallCommon, a []Value) (Value, *Fork, error) {
+		t := a[1].(*Term)
+		if ex.bigIsInt() {
+			return ex.bigSet(s, a[0], &BigV{T: ex.Ctx.BV2Int(t)})
+		}
+		return ex.bigSet(s, a[0], &BigV{T: ex.Ctx.ZExt(t, ex.bigW()), MaxBits: 64})
+	}
+	m["(*math/big.Int).SetInt64"] = func(ex *Exec, s *State, cc *ssa.CallCommon, a []Value) (Value, *Fork, error) {
+		t := a[1].(*Term)
+		if t.IsConst() {
+			return ex.bigSet(s, a[0], ex.bigConst(big.NewInt(t.SInt64())))
+		}
+		return nil, nil, unsupported("big.Int.SetInt64 of symbolic value")
+	}
+	m["(*math/big.Int).Set"] = func(ex *Exec, s *State, cc *ssa.CallCommon, a []Value) (Value, *Fork, error) {
+		x, err := ex.bigGet(s, a[1])
+		if err != nil {
+			return nil, nil, err
+		}
+		return ex.bigSet(s, a[0], x)
+	}
+	m["(*math/big.Int).SetBytes"] = func(ex *Exec, s *State, cc *ssa.CallCommon, a []Value) (Value, *Fork, error) {
+		bs, err := ex.sliceBytes(s, a[1].(SliceV))
+		if err != nil {
+			return nil, nil, err
+		}
+		c := ex.Ctx
+		if ex.bigIsInt() {
+			acc := c.IntI(0)
+			for _, b := range bs {
+				acc = c.IntOp(OIAdd, c.IntOp(OIMul, acc, c.IntI(256)), c.BV2Int(b))
+			}
+			return ex.bigSet(s, a[0], &BigV{T: acc})
+		}
+		if 8*len(bs) > ex.bigW() {
+			return nil, nil, unsupported("big.Int.SetBytes: %d bytes exceed the model width", len(bs))
+		}
+		if len(bs) == 0 {
+			return ex.bigSet(s, a[0], ex.bigConst(new(big.Int)))
+		}
+		return ex.bigSet(s, a[0], &BigV{T: c.ZExt(c.Concat(bs...), ex.bigW()), MaxBits: 8 * len(bs)})
+	}
+	m["(*math/big.Int).SetString"] = func(ex *Exec, s *State, cc *ssa.CallCommon, a []Value) (Value, *Fork, error) {
+		sv, ok := a[1].(StringV)
+		str, ok2 := sv.Concrete()
+		bt := a[2].(*Term)
+		if !ok || !ok2 || !bt.IsConst() {
+			return nil, nil, unsupported("big.Int.SetString of symbolic string")
+		}
+		v, good := new(big.Int).SetString(str, int(bt.U))
+		if !good {
+			return TupleV{Ptr{}, ex.Ctx.False()}, nil, nil
+		}
+		r, _, err := ex.bigSet(s, a[0], ex.bigConst(v))
+		return TupleV{r, ex.Ctx.True()}, nil, err
+	}
+	m["(*math/big.Int).Lsh"] = func(ex *Exec, s *State, cc *ssa.CallCommon, a []Value) (Value, *Fork, error) {
+		x, err := ex.bigGet(s, a[1])
+		if err != nil {
+			return nil, nil, err
+		}
+		k, err := constShift(a[2])
+		if err != nil {
+			return nil, nil, err
+		}
+		c := ex.Ctx
+		if ex.bigIsInt() {
+			return ex.bigSet(s, a[0], &BigV{T: c.IntOp(OIMul, x.T, c.Int(pow2(k)))})
+		}
+		return ex.bigSet(s, a[0], &BigV{T: c.BVOp(OShl, x.T, c.BV(ex.bigW(), uint64(k))), MaxBits: x.MaxBits + k})
+	}
+	m["(*math/big.Int).Rsh"] = func(ex *Exec, s *State, cc *ssa.CallCommon, a []Value) (Value, *Fork, error) {
+		x, err := ex.bigGet(s, a[1])
+		if err != nil {
+			return nil, nil, err
+		}
+		k, err := constShift(a[2])
+		if err != nil {
+			return nil, nil, err
+		}
+		c := ex.Ctx
+		if ex.bigIsInt() {
+			return ex.bigSet(s, a[0], &BigV{T: c.IntOp(OIDiv, x.T, c.Int(pow2(k)))})
+		}
+		mb := x.MaxBits - k
+		if mb < 0 {
+			mb = 0
+		}
+		return ex.bigSet(s, a[0], &BigV{T: c.BVOp(OLShr, x.T, c.BV(ex.bigW(), uint64(k))), MaxBits: mb})
+	}
+	m["(*math/big.Int).Or"] = bin(func(ex *Exec, x, y *BigV) (*BigV, error) {
+		if ex.bigIsInt() {
+			return nil, unsupported("big.Int.Or in the integer model")
+		}
+		mb := x.MaxBits
+		if y.MaxBits > mb {
+			mb = y.MaxBits
+		}
+		return &BigV{T: ex.Ctx.Or(x.T, y.T), MaxBits: mb}, nil
+	})
+	m["(*math/big.Int).And"] = bin(func(ex *Exec, x, y *BigV) (*BigV, error) {
+		if ex.bigIsInt() {
+			// x & (2^k - 1) = x mod 2^k for non-negative x
+			if y.T.IsConst() {
+				k := y.T.Big.BitLen()
+				if new(big.Int).Sub(pow2(k), bigOne).Cmp(y.T.Big) == 0 {
+					return &BigV{T: ex.Ctx.IntOp(OIMod, x.T, ex.Ctx.Int(pow2(k)))}, nil
+				}
+			}
+			return nil, unsupported("big.Int.And in the integer model")
+		}
+		mb := x.MaxBits
+		if y.MaxBits < mb {
+			mb = y.MaxBits
+		}
+		return &BigV{T: ex.Ctx.And(x.T, y.T), MaxBits: mb}, nil
+	})
+	m["(*math/big.Int).Add"] = bin(func(ex *Exec, x, y *BigV) (*BigV, error) {
+		if ex.bigIsInt() {
+			return &BigV{T: ex.Ctx.IntOp(OIAdd, x.T, y.T)}, nil
+		}
+		mb := x.MaxBits
+		if y.MaxBits > mb {
+			mb = y.MaxBits
+		}
+		return &BigV{T: ex.Ctx.Add(x.T, y.T), MaxBits: mb + 1}, nil
+	})
+	m["(*math/big.Int).Sub"] = bin(func(ex *Exec, x, y *BigV) (*BigV, error) {
+		if ex.bigIsInt() {
+			return &BigV{T: ex.Ctx.IntOp(OISub, x.T, y.T)}, nil
+		}
+		if x.T.IsConst() && y.T.IsConst() {
+			return ex.bigConst(new(big.Int).Sub(x.T.BigVal(), y.T.BigVal())), nil
+		}
+		return nil, unsupported("big.Int.Sub of symbolic values in the bit-vector model (sign unknown)")
+	})
+	m["(*math/big.Int).Mul"] = bin(func(ex *Exec, x, y *BigV) (*BigV, error) {
+		if ex.bigIsInt() {
+			return &BigV{T: ex.Ctx.IntOp(OIMul, x.T, y.T)}, nil
+		}
+		return &BigV{T: ex.Ctx.Mul(x.T, y.T), MaxBits: x.MaxBits + y.MaxBits}, nil
+	})
+	quo := func(op Op, iop Op) ModelFn {
+		return func(ex *Exec, s *State, cc *ssa.CallCommon, a []Value) (Value, *Fork, error) {
+			x, err := ex.bigGet(s, a[1])
+			if err != nil {
+				return nil, nil, err
+			}
+			y, err := ex.bigGet(s, a[2])
+			if err != nil {
+				return nil, nil, err
+			}
+			c := ex.Ctx
+			var zero *Term
+			if ex.bigIsInt() {
+				zero = c.Eq(y.T, c.IntI(0))
+			} else {
+				zero = c.Eq(y.T, c.BV(ex.bigW(), 0))
+			}
+			if !zero.IsFalse() && ex.checkSat(s, zero) != Unsat {
+				return nil, nil, &goPanic{"division by zero (big.Int)"}
+			}
+			if ex.bigIsInt() {
+				// Quo truncates, Div/Mod are Euclidean; for non-negative operands they agree.
+				nonneg := c.BAnd(c.IntOp(OILe, c.IntI(0), x.T), c.IntOp(OILe, c.IntI(0), y.T))
+				if !nonneg.IsTrue() && ex.checkSat(s, c.BNot(nonneg)) != Unsat {
+					return nil, nil, unsupported("big.Int division with possibly negative operands")
+				}
+				return ex.bigSet(s, a[0], &BigV{T: c.IntOp(iop, x.T, y.T)})
+			}
+			mb := x.MaxBits
+			if op == OURem && y.MaxBits < mb {
+				mb = y.MaxBits
+			}
+			return ex.bigSet(s, a[0], &BigV{T: c.BVOp(op, x.T, y.T), MaxBits: mb})
+		}
+	}
+	m["(*math/big.Int).Quo"] = quo(OUDiv, OIDiv)
+	m["(*math/big.Int).Div"] = quo(OUDiv, OIDiv)
+	m["(*math/big.Int).Mod"] = quo(OURem, OIMod)
+	m["(*math/big.Int).Rem"] = quo(OURem, OIMod)
+	m["(*math/big.Int).Cmp"] = func(ex *Exec, s *State, cc *ssa.CallCommon, a []Value) (Value, *Fork, error) {
+		x, err := ex.bigGet(s, a[0])
+		if err != nil {
+			return nil, nil, err
+		}
+		y, err := ex.bigGet(s, a[1])
+		if err != nil {
+			return nil, nil, err
+		}
+		c := ex.Ctx
+		var lt *Term
+		if ex.bigIsInt() {
+			lt = c.IntOp(OILt, x.T, y.T)
+		} else {
+			lt = c.Cmp(OUlt, x.T, y.T)
+		}
+		eq := c.Eq(x.T, y.T)
+		return c.Ite(lt, c.BV(64, ^uint64(0)), c.Ite(eq, c.BV(64, 0), c.BV(64, 1))), nil, nil
+	}
+	m["(*math/big.Int).Sign"] = func(ex *Exec, s *State, cc *ssa.CallCommon, a []Value) (Value, *Fork, error) {
+		x, err := ex.bigGet(s, a[0])
+		if err != nil {
+			return nil, nil, err
+		}
+		c := ex.Ctx
+		if ex.bigIsInt() {
+			return c.Ite(c.IntOp(OILt, x.T, c.IntI(0)), c.BV(64, ^uint64(0)), c.Ite(c.Eq(x.T, c.IntI(0)), c.BV(64, 0), c.BV(64, 1))), nil, nil
+		}
+		return c.Ite(c.Eq(x.T, c.BV(ex.bigW(), 0)), c.BV(64, 0), c.BV(64, 1)), nil, nil
+	}
+	m["(*math/big.Int).Int64"] = func(ex *Exec, s *State, cc *ssa.CallCommon, a []Value) (Value, *Fork, error) {
+		x, err := ex.bigGet(s, a[0])
+		if err != nil {
+			return nil, nil, err
+		}
+		if ex.bigIsInt() {
+			return ex.Ctx.Int2BV(x.T, 64), nil, nil
+		}
+		return ex.Ctx.Extract(x.T, 63, 0), nil, nil
+	}
+	m["(*math/big.Int).Uint64"] = m["(*math/big.Int).Int64"]
+	m["(*math/big.Int).IsUint64"] = func(ex *Exec, s *State, cc *ssa.CallCommon, a []Value) (Value, *Fork, error) {
+		x, err := ex.bigGet(s, a[0])
+		if err != nil {
+			return nil, nil, err
+		}
+		c := ex.Ctx
+		if ex.bigIsInt() {
+			return c.BAnd(c.IntOp(OILe, c.IntI(0), x.T), c.IntOp(OILt, x.T, c.Int(pow2(64)))), nil, nil
+		}
+		return c.Cmp(OUlt, x.T, c.BVBig(ex.bigW(), pow2(64))), nil, nil
+	}
+	m["(*math/big.Int).BitLen"] = func(ex *Exec, s *State, cc *ssa.CallCommon, a []Value) (Value, *Fork, error) {
+		x, err := ex.bigGet(s, a[0])
+		if err != nil {
+			return nil, nil, err
+		}
+		if x.T.IsConst() {
+			return ex.Ctx.BV(64, uint64(x.T.BigVal().BitLen())), nil, nil
+		}
+		return nil, nil, unsupported("big.Int.BitLen of symbolic value")
+	}
+	m["(*math/big.Int).Bit"] = func(ex *Exec, s *State, cc *ssa.CallCommon, a []Value) (Value, *Fork, error) {
+		x, err := ex.bigGet(s, a[0])
+		if err != nil {
+			return nil, nil, err
+		}
+		i := a[1].(*Term)
+		if ex.bigIsInt() || !i.IsConst() {
+			return nil, nil, unsupported("big.Int.Bit (integer model or symbolic index)")
+		}
+		if int(i.U) >= ex.bigW() {
+			return ex.Ctx.BV(64, 0), nil, nil
+		}
+		return ex.Ctx.ZExt(ex.Ctx.Extract(x.T, int(i.U), int(i.U)), 64), nil, nil
+	}
+	m["(*math/big.Int).Bytes"] = func(ex *Exec, s *State, cc *ssa.CallCommon, a []Value) (Value, *Fork, error) {
+		x, err := ex.bigGet(s, a[0])
+		if err != nil {
+			return nil, nil, err
+		}
+		if ex.bigIsInt() {
+			return nil, nil, unsupported("big.Int.Bytes in the integer model")
+		}
+		c := ex.Ctx
+		w := ex.bigW()
+		maxLen := (x.MaxBits + 7) / 8
+		f := &Fork{}
+		// one alternative per minimal byte length k
+		for k := 0; k <= maxLen; k++ {
+			var cond *Term
+			if k == 0 {
+				cond = c.Eq(x.T, c.BV(w, 0))
+			} else {
+				cond = c.Cmp(OUle, c.BVBig(w, pow2(8*(k-1))), x.T)
+				if 8*k < w {
+					cond = c.BAnd(cond, c.Cmp(OUlt, x.T, c.BVBig(w, pow2(8*k))))
+				}
+			}
+			if cond.IsFalse() {
+				continue
+			}
+			bs := make([]*Term, k)
+			for i := 0; i < k; i++ {
+				hi := 8*(k-i) - 1
+				bs[i] = c.Extract(x.T, hi, hi-7)
+			}
+			f.Alts = append(f.Alts, Alt{Cond: cond, Ret: lazyBytes{bs}, Tag: fmt.Sprintf("Bytes=%d;", k)})
+		}
+		for i := range f.Alts {
+			f.Alts[i].Ret = ex.newByteSlice(s, f.Alts[i].Ret.(lazyBytes).b)
+		}
+		return nil, f, nil
+	}
+	m["(*math/big.Int).FillBytes"] = func(ex *Exec, s *State, cc *ssa.CallCommon, a []Value) (Value, *Fork, error) {
+		x, err := ex.bigGet(s, a[0])
+		if err != nil {
+			return nil, nil, err
+		}
+		if ex.bigIsInt() {
+			return nil, nil, unsupported("big.Int.FillBytes in the integer model")
+		}
+		buf := a[1].(SliceV)
+		c := ex.Ctx
+		w := ex.bigW()
+		if 8*buf.Len < w {
+			over := c.Cmp(OUle, c.BVBig(w, pow2(8*buf.Len)), x.T)
+			if !over.IsFalse() && ex.checkSat(s, over) != Unsat {
+				return nil, nil, &goPanic{"math/big: buffer too small to fit value"}
+			}
+		}
+		for i := 0; i < buf.Len; i++ {
+			hi := 8*(buf.Len-i) - 1
+			var b *Term
+			if hi-7 >= w {
+				b = c.BV(8, 0)
+			} else if hi >= w {
+				b = c.ZExt(c.Extract(x.T, w-1, hi-7), 8)
+			} else {
+				b = c.Extract(x.T, hi, hi-7)
+			}
+			if err := ex.store(s, Ptr{Obj: buf.Obj, Path: appendPath(buf.Path, PE{I: buf.Off + i})}, b); err != nil {
+				return nil, nil, err
+			}
+		}
+		return buf, nil, nil
+	}
+	m["(*math/big.Int).String"] = func(ex *Exec, s *State, cc *ssa.CallCommon, a []Value) (Value, *Fork, error) {
+		return ex.strConst("<big.Int>"), nil, nil
+	}
+	m["(*math/big.Int).ModInverse"] = func(ex *Exec, s *State, cc *ssa.CallCommon, a []Value) (Value, *Fork, error) {
+		// z.ModInverse(g, n): inverse of g mod n, or nil (z unchanged) if gcd(g, n) != 1.
+		// n must be a (concrete or symbolic) prime given by the harness contract: invertible iff g mod n != 0.
+		g, err := ex.bigGet(s, a[1])
+		if err != nil {
+			return nil, nil, err
+		}
+		n, err := ex.bigGet(s, a[2])
+		if err != nil {
+			return nil, nil, err
+		}
+		if ex.bigIsInt() || !n.T.IsConst() {
+			return nil, nil, unsupported("big.Int.ModInverse needs the bit-vector model and a constant modulus")
+		}
+		nv := n.T.BigVal()
+		if !nv.ProbablyPrime(20) {
+			return nil, nil, unsupported("big.Int.ModInverse with a composite modulus")
+		}
+		c := ex.Ctx
+		w := ex.bigW()
+		ex.invCount++
+		inv := c.Var(fmt.Sprintf("modinv!%d", ex.invCount), SBV(w))
+		gm := c.BVOp(OURem, g.T, n.T)
+		zero := c.Eq(gm, c.BV(w, 0))
+		// witness: 0 < inv < n and (g*inv) mod n = 1 ; product width: need 2*bits(n) <= w
+		if 2*nv.BitLen() > w {
+			return nil, nil, unsupported("big.Int.ModInverse: modulus too wide for the model width")
+		}
+		prod := c.BVOp(OURem, c.Mul(gm, inv), n.T)
+		ok := c.BAnd(c.Cmp(OUlt, c.BV(w, 0), inv), c.Cmp(OUlt, inv, n.T), c.Eq(prod, c.BV(w, 1)))
+		f := &Fork{}
+		f.Alts = append(f.Alts, Alt{Cond: zero, Ret: Ptr{}})
+		f.Alts = append(f.Alts, Alt{Cond: c.BAnd(c.BNot(zero), ok), Ret: lazyBigSet{recv: a[0], v: &BigV{T: inv, MaxBits: nv.BitLen()}}})
+		return nil, f, nil
+	}
+}
+
+type lazyBytes struct{ b []*Term }
+
+// lazyBigSet: fork alternative that stores into the receiver in the successor state.
+type lazyBigSet struct {
+	recv Value
+	v    *BigV
+}
+
+var _ = types.Typ
